@@ -308,14 +308,9 @@ def check_run_worker(ctx):
                   "n_batches resolves to %s" % sorted(lv), key="nb")
         st = A.get_arg(c, 4, "start_idx")
         ctx.check(R, c, "start_idx left at 0", st is None or A.const_value(st) == 0, "start_idx=%s shifts every range" % (A.unparse(st) if st is not None else ""), key="start")
-    # both selectors rejected
-    rej = False
-    for s in A.walk_local(fn):
-        if isinstance(s, ast.If) and A.always_raises(s.body):
-            cs = {canon(x) for x in _conjuncts(s.test)}
-            if {canon(parse("n_prior_samples is not None")), canon(parse("samples_idx is not None"))} <= cs:
-                rej = True
-    ctx.check(R, fn, "both selectors rejected", rej, "no unconditional raise when n_prior_samples and samples_idx are both given", key="both")
+    # both selectors rejected (path-condition based: `if a and b: raise` and `if a: if b: raise` are the same guard)
+    g = A.find_raising_guard(fn, A.nnf_of_src("n_prior_samples is not None and samples_idx is not None"))
+    ctx.check(R, g or fn, "both selectors rejected", g is not None, "no unconditional raise when n_prior_samples and samples_idx are both given", key="both")
     # order: results.append(res) for res in pool.map(worker, tasks); return results
     maps = [c for c in A.calls_in(fn) if A.last_attr(c) == "map"]
     ok = False
